@@ -32,7 +32,7 @@ ASSUMPTIONS = [
     'invalid fragment (removed by --no_rejects) = R1 absent/unmapped, pre-set qc-fail, or (nla) R1 without CATG: generator label, cross-checked against the default run',
 ]
 COMPONENTS = {'real': tc.TAGGER_REAL, 'stub': tc.TAGGER_STUB}
-REQUIRED_PROBES = ['many_small_contigs_layout', 'index_stale', 'index_missing', 'contig_with_only_placed_unmapped_reads', 'multiprocess_lifetime', 'delivery_order_not_submission_order', 'small_group_and_large_contig', 'unplaced_reads', 'no_rejects_run', 'invalid_fragment_present', 'orphan_or_halfmapped', 'empty_contig']
+REQUIRED_PROBES = ['input_header_declares_read_groups_subset', 'many_small_contigs_layout', 'index_stale', 'index_missing', 'contig_with_only_placed_unmapped_reads', 'multiprocess_lifetime', 'delivery_order_not_submission_order', 'small_group_and_large_contig', 'unplaced_reads', 'no_rejects_run', 'invalid_fragment_present', 'orphan_or_halfmapped', 'empty_contig']
 
 
 def plan(tier):
@@ -89,7 +89,9 @@ def generate(seed, tier):
             f['clip'] = 0
     params = {'method': method, 'encoded': w.random() < 0.7, 'lib': w.choice(['LIB', 'my-lib_1']),
               # state of the input's index when the tagger starts: fresh, missing, or left over from an earlier version of the file (N seconds older)
-              'index_state': weighted(w, [(None, 6), (['missing'], 1), (['stale', w.choice([1, 5, 30, 59, 61, 3600])], 2)])}
+              'index_state': weighted(w, [(None, 6), (['missing'], 1), (['stale', w.choice([1, 5, 30, 59, 61, 3600])], 2)]),
+              # read groups the input header already declares
+              'header_rgs': weighted(w, [(None, 6), ('subset', 2), ('all', 1), ('other', 1)])}
     s = st.schedule
     modes = [{'mp': False, 'name': 'single'},
              {'mp': True, 'name': 'multi', 'width': s.randint(1, 4), 'schedule': {'policy': 'seeded'}, 'seed': seed}]
@@ -144,6 +146,8 @@ def execute(case):
             probe('many_small_contigs_layout')
         if p.get('index_state'):
             probe('index_' + p['index_state'][0])
+        if p.get('header_rgs'):
+            probe('input_header_declares_read_groups_' + p['header_rgs'])
         if any(f.get('defect') == 'placed_unmapped' for f in case['workload']):
             probe('contig_with_only_placed_unmapped_reads')
         invalid_ids = {f['n'] for f in case['workload'] if lib.invalid_for(f, p['method'])}
